@@ -11,11 +11,11 @@ ALL = [f'C{i:02d}' for i in range(1, 21)]
 CHECKS = {
     'C01': dict(
         level='other', technique='abstract interpretation of kernel ASTs to exact algebraic normal forms; partial evaluation of graph tables',
-        text='Static: every elastic kernel is reduced to an exact power-product normal form and compared with the documented formula; every graph entry is one-step sound against the documented definition of its target (so all routes agree by induction); inverse pairs compose to the identity. The rounding bound is decided only as an operation-discipline rule (no add/sub, bounded op count, no narrowing cast), not measured.',
+        text='Static: every elastic kernel is reduced to an exact power-product normal form and compared with the documented formula; every graph entry is one-step sound against the documented definition of its target (so all routes agree by induction); inverse pairs compose to the identity. The rounding bound is decided as an operation-discipline rule (no add/sub, bounded op count, no narrowing cast) and, for single precision, by a magnitude rule over the whole quantified box 1e-9..1e9 (SI) x unit grid: whenever the exact result is a normal float32, no power-product intermediate overflows or drops below 7e-41 (exact: log-linear forms, vertex enumeration of box x result slab).',
         note='trusts sa/scipp_model.py (semantics of ~70 scipp names), spec/formulas.py, positivity of physical quantities under sqrt; scipp.transform_coords not analysed', ref='3 C01'),
     'C05': dict(
         level='other', technique='abstract interpretation to rational-function normal forms; guard-shape rule on where(cond, NaN, value); interval analysis of log-magnitudes of float32 intermediates',
-        text='Static: the value arm of both inelastic kernels equals the documented formula; substituting the physical arrival time gives Ei-Ef identically; the NaN guard is the non-strict comparison on the same dt whose square is the only divisor; arms agree in unit/dtype on every path; graph factories wire the right kernel; magnitude-interval rule (sa/magnitude.py): for Ei/Ef in 1e-3..1e4 meV given in meV/eV/J, lengths 0.1..1e3 m in angstrom..km and tof in ns..s no single-precision power-product intermediate leaves the normal range of float32 (found and fixed F14).',
+        text='Static: the value arm of both inelastic kernels equals the documented formula; substituting the physical arrival time gives Ei-Ef identically; the NaN guard is the non-strict comparison on the same dt whose square is the only divisor; arms agree in unit/dtype on every path; graph factories wire the right kernel; magnitude-interval rule (sa/magnitude.py): for Ei/Ef in 1e-3..1e4 meV given in meV/eV/J, lengths 0.1..1e3 m in angstrom..km and tof in ns..s no single-precision intermediate leaves the normal range of float32: power products exactly, sums and what is computed from them by forward interval arithmetic in which a non-zero difference of floats is at least eps/4 of the larger lower bound (found and fixed F14).',
         note='trusts scipp model table and the normal form; the magnitude rule bounds power products only (sums are not bounded)', ref='3 C05'),
     'C07': dict(
         level='proof', technique='abstract interpretation over unit and dtype domains; exhaustive dtype grid by case split',
@@ -26,7 +26,7 @@ CHECKS = {
 CHECKS.update({
     'C03': dict(
         level='other', technique='abstract interpretation to vector/scalar normal forms; formula-recognition and invariance by substitution',
-        text='Static: the six Euclidean definitions hold as term identities; two_theta is one of the two recognised epsilon-accurate formulas and contains no acos/asin/cos of a normalised product; its shape confines it to [0, pi]; the normal form is invariant under beam swap and positive rescaling; no argument is written; beamline graph tables are one-step sound. The 1e-15 accuracy is Kahan\'s theorem about the recognised formula (cited).',
+        text='Static: the six Euclidean definitions hold as term identities; two_theta is one of the two recognised epsilon-accurate formulas and contains no acos/asin/cos of a normalised product; its shape confines it to [0, pi]; the normal form is invariant under beam swap and positive rescaling; no argument is written; the beamline graphs handed out by the public factory are one-step sound and selected by the truth value of the flag. The 1e-15 accuracy is Kahan\'s theorem about the recognised formula (cited).',
         note='trusts scipp model table, term normal form, spec/formulas.py', ref='3 C03'),
     'C04': dict(
         level='other', technique='abstract interpretation of all dispatcher paths; sibling agreement against the documented construction',
@@ -49,7 +49,7 @@ CHECKS.update({
         note='trusts the three-line model of scipp.transform_coords and spec/convert_spec.py; values follow from the one-step soundness rules of C01/C03/C05', ref='3 C02'),
     'C09': dict(
         level='other', technique='interprocedural effect summaries (who-may-mutate, returns-alias-of) to a fixpoint over the call graph; object-identity interpretation of kernels',
-        text='Static: no public function of the conversion/chopper/tof/peaks/absorption/io/atoms modules writes to an object reachable from an argument or to module-level state (frozen list of documented mutators excepted), with copy=False conversions counted as aliases; no module table or memoised object is handed out; copy()/with_*() share no container with the original; cached lookups expose no mutable state except through copying accessors.',
+        text='Static: no public function of the conversion/chopper/tof/peaks/absorption/io/atoms modules writes to an object reachable from an argument or to module-level state (frozen list of documented mutators excepted), with copy=False conversions counted as aliases; no module table or memoised object is handed out, also not inside the fields or elements of a fresh record; next() counts as a write to the iterator it advances (found and fixed F15: CIF.save consumed the id generator of the builder); copy()/with_*() share no container with the original; cached lookups expose no mutable state except through copying accessors.',
         note='trusts the tables of mutating/aliasing/copying library calls in sa/effects.py; the heap abstraction is field-insensitive beyond one access path (over-approximate for mutation)', ref='3 C09'),
 })
 
